@@ -318,4 +318,6 @@ RULES = [
     Rule("C11.K4", rule_K4, floor=2, doc="identity fields"),
     Rule("C11.K5", rule_K5, floor=2, doc="file name from the request"),
     Rule("C11.K6", rule_K6, floor=2, doc="what is written is what was checked"),
+    Rule("C11.E12", lambda ctx: __import__("sa.mypyx", fromlist=["x"]).cross_check(ctx, [f"{DS}.GPTDataset.save"], "C11.E12"), floor=1,
+         doc="thorough: call graph over-approximates mypy's type-resolved edges on the save closure", tier="thorough"),
 ]
